@@ -9,10 +9,14 @@ Op language (a case = everything from a `reset` to the next one):
     bind c=<i> to=<name|->             the front session of client i gets chatid=<name> ("-" = empty string)
     reqs q=<item>|<item>|…             item = <c>,<id>,<route>,<pay>; the messages are written at once
                                        (one frame per client); pay = v<N> | null | bad | empty | badtype
+    pipe c=<i> q=<item>|…              a NEW connection (index i = number of connections so far) is opened while the
+                                       owner of the front is kept busy: handshake, ack and the messages (all items
+                                       have c=i) are read by the session's reader BEFORE the owner runs AddSession;
+                                       then the owner is released (repaired defect D20)
     adv                                5 s of virtual time pass
     flush                              45 s pass (every handler delay and the 30 s forward timeout are over)
 
-Observation of reqs/adv/flush: `r=<a>,<b>,… i=<x>,<y>,…` — `r` the multiset (sorted) of
+Observation of reqs/pipe/adv/flush: `r=<a>,<b>,… i=<x>,<y>,…` — `r` the multiset (sorted) of
 `<c>:resp:<id>:<errflag>:<payload hex>` the clients read during the op, `i` the multiset (sorted)
 of handler invocations `<service>:<method>:<v>` logged during the op.  reset/bind: `ok`.
 
@@ -94,8 +98,8 @@ structure MState where
   st : St := St.init
   keys : List (Nat × String) := []
 
-def MState.sess (m : MState) (c : Nat) : Sess :=
-  ⟨c, (m.keys.find? (·.1 = c)).map (·.2)⟩
+def MState.sess (m : MState) (c : Nat) (added : Bool := true) : Sess :=
+  ⟨c, (m.keys.find? (·.1 = c)).map (·.2), added⟩
 
 def MState.bind (m : MState) (c : Nat) (k : String) : MState :=
   { m with keys := (c, k) :: m.keys.filter (·.1 ≠ c) }
@@ -114,6 +118,8 @@ def modelStep (m : MState) (line : String) : MState × String :=
     | _, _ => (m, "bad-op")
   | some "reqs" =>
     applyOps m ((parseItems ws).map fun it => .req (m.sess it.c) ⟨it.id, it.route, it.pay.toModel⟩)
+  | some "pipe" =>
+    applyOps m ((parseItems ws).map fun it => .req (m.sess it.c false) ⟨it.id, it.route, it.pay.toModel⟩)
   | some "adv" => applyOps m [.adv 5000]
   | some "flush" => applyOps m [.adv 45000]
   | _ => (m, "bad-op")
@@ -134,6 +140,8 @@ structure Outst where
   expect : Expect
   /-- why no data is expected, for the signature of an unanswered request -/
   cls : String
+  /-- sent before the owner processed the session-add (op `pipe`) -/
+  early : Bool := false
 
 structure Sent where
   v : Nat
@@ -271,6 +279,8 @@ def checkFlush (st : SState) : List (Option String) :=
   (st.outst.map fun o =>
     if idWrap ≤ o.id ∧ o.id % idWrap = 0 then
       some s!"C02/request-id-truncated c{o.c} id={o.id} route={o.route} was handled as a notification (id mod 2^32 = 0) and never answered"
+    else if o.early then
+      some s!"C02/pipelined-request-unanswered c{o.c} id={o.id} route={o.route}: sent right behind the handshake, before the front had registered the session; got no response within 45 s"
     else
       let sfx := if o.cls = "no-target" then "-no-target" else if o.cls = "notify-method" then "-notify-method" else ""
       some s!"C02/request-unanswered{sfx} c{o.c} id={o.id} route={o.route} got no response within 45 s") ++
@@ -306,6 +316,18 @@ def observe (st : SState) (obs : String) (isFlush : Bool) : SState × String :=
     | some t => (st2, "VIOLATION " ++ t)
     | none => (st2, "ok")
 
+def specReqs (st : SState) (ws : List String) (obs : String) (early : Bool) : SState × String :=
+  let st' := (parseItems ws).foldl (fun (st : SState) it =>
+    let (ex, cls, tgt, deliverable) := classify st.keys it
+    let desc := s!"c{it.c} id={it.id} route={it.route}"
+    let st := match payV it.pay with
+      | some v => if v = 0 then st else
+        { st with sent := ⟨v, it.id = 0, tgt, deliverable, 0, desc⟩ :: st.sent }
+      | none => st
+    if it.id = 0 then st
+    else { st with outst := st.outst ++ [⟨it.c, it.id, it.route, ex, cls, early⟩] }) st
+  observe st' obs false
+
 def specStep (st : SState) (line : String) : SState × String :=
   match line.splitOn "\t" with
   | [op, obs] =>
@@ -316,17 +338,8 @@ def specStep (st : SState) (line : String) : SState × String :=
       match kvNat ws "c", kv ws "to" with
       | some c, some t => ({ st with keys := (c, if t = "-" then "" else t) :: st.keys.filter (·.1 ≠ c) }, "ok")
       | _, _ => (st, "ok")
-    | some "reqs" =>
-      let st' := (parseItems ws).foldl (fun (st : SState) it =>
-        let (ex, cls, tgt, deliverable) := classify st.keys it
-        let desc := s!"c{it.c} id={it.id} route={it.route}"
-        let st := match payV it.pay with
-          | some v => if v = 0 then st else
-            { st with sent := ⟨v, it.id = 0, tgt, deliverable, 0, desc⟩ :: st.sent }
-          | none => st
-        if it.id = 0 then st
-        else { st with outst := st.outst ++ [⟨it.c, it.id, it.route, ex, cls⟩] }) st
-      observe st' obs false
+    | some "reqs" => specReqs st ws obs false
+    | some "pipe" => specReqs st ws obs true
     | some "adv" => observe st obs false
     | some "flush" => observe st obs true
     | _ => (st, "ok")
